@@ -98,6 +98,45 @@ func concurrentDecode(s *cases.Set, rounds int) {
 	s.Extra["concurrent_decodes"] = 8 * rounds
 }
 
+// A network server verifies, forwards or logs a received frame; a processing step that returns an error (MAC commands
+// that do not decode, with or without a decryption before; a join-accept that does not decode after decryption) must
+// leave the accepted frame re-encodable to the bytes that were received.
+func failedStepKeepsFrame(s *cases.Set, b []byte) {
+	var k lorawan.AES128Key
+	copy(k[:], nr.Bytes(16))
+	steps := []struct {
+		name string
+		f    func(p *lorawan.PHYPayload) error
+	}{
+		{"DecodeFOptsToMACCommands", func(p *lorawan.PHYPayload) error { return p.DecodeFOptsToMACCommands() }},
+		{"DecodeFRMPayloadToMACCommands", func(p *lorawan.PHYPayload) error { return p.DecodeFRMPayloadToMACCommands() }},
+		{"DecryptFOpts", func(p *lorawan.PHYPayload) error { return p.DecryptFOpts(k) }},
+		{"DecryptFRMPayload", func(p *lorawan.PHYPayload) error { return p.DecryptFRMPayload(k) }},
+		{"DecryptJoinAcceptPayload", func(p *lorawan.PHYPayload) error { return p.DecryptJoinAcceptPayload(k) }},
+	}
+	for _, st := range steps {
+		st := st
+		func() {
+			defer func() { _ = recover() }() // panics are C09's subject
+			var p lorawan.PHYPayload
+			if p.UnmarshalBinary(append([]byte{}, b...)) != nil {
+				return
+			}
+			cases.Begin("failed-step:"+st.name, map[string]interface{}{"bytes": fmt.Sprintf("%x", b)})
+			err := st.f(&p)
+			cases.End()
+			if err == nil {
+				return
+			}
+			if re, e2 := p.MarshalBinary(); e2 != nil || !bytes.Equal(re, b) {
+				s.Fail(cases.GoFail{Key: fmt.Sprintf("failed-step-changes-frame:%s:%x", st.name, b),
+					What:   fmt.Sprintf("%s returned an error (%v) and left the frame re-encoding to %x (err %v) instead of the received bytes", st.name, err, re, e2),
+					Replay: map[string]interface{}{"bytes": fmt.Sprintf("%x", b), "step": st.name, "key": fmt.Sprintf("%x", k[:])}})
+			}
+		}()
+	}
+}
+
 func add(s *cases.Set, b []byte, kind string) {
 	q, o, ok := decode(b)
 	if ok && len(b) > 0 && b[0]&0x1c == 0 && len(accepted) < 512 { // reserved MHDR bits zero: the canonical ones
@@ -144,6 +183,9 @@ func add(s *cases.Set, b []byte, kind string) {
 		if b2 != nil {
 			_, oagain, _ = decode(b2)
 		}
+		if len(b) > 0 && b[0]&0x1c == 0 { // the statement's frames: reserved MHDR bits zero (they are not kept by the decoder)
+			failedStepKeepsFrame(s, b)
+		}
 	}
 	key := fmt.Sprintf("dec:%x", b)
 	s.Remember(key, o+" "+ore+" "+oagain, map[string]interface{}{"api": "PHYPayload.UnmarshalBinary then MarshalBinary", "bytes": fmt.Sprintf("%x", b)}, func() string {
@@ -178,6 +220,16 @@ func main() {
 	}
 	// witness of the recorded (fixed) finding C08-1: FOpts + FPort 0 + no FRMPayload
 	add(s, []byte{0x40, 1, 2, 3, 4, 0x01, 0, 0, 0x02, 0x00, 9, 9, 9, 9}, "corpus")
+	// accepted frames on which a later step fails: a truncated command in FOpts / in a port-0 FRMPayload, join-accepts
+	// of 1 + 16k octets that are no join-accept after decryption (C08-2)
+	add(s, []byte{0x40, 4, 3, 2, 1, 0x01, 1, 0, 0x03, 9, 9, 9, 9}, "corpus")
+	add(s, []byte{0x40, 4, 3, 2, 1, 0x00, 1, 0, 0x00, 0x03, 9, 9, 9, 9}, "corpus")
+	add(s, []byte{0x60, 4, 3, 2, 1, 0x00, 1, 0, 0x00, 0x05, 0x01, 9, 9, 9, 9}, "corpus")
+	for _, n := range []int{17, 33, 49, 65, 81} {
+		b := r.Bytes(n)
+		b[0] = 0x20
+		add(s, b, "join-accept-sized")
+	}
 	// model-guided: every FOptsLen x boundary lengths x port 0 / 7
 	for _, mt := range []byte{2, 3, 4, 5} {
 		for ol := 0; ol < 16; ol++ {
